@@ -808,7 +808,9 @@ func runRingDeltaAgrees(c *Ctx) {
 								idxStores++
 							}
 						}
-						if len(cntStores) == 1 && idxStores == 1 {
+						// … and both sit in the same loop context: a count moved once after a loop that advances
+						// the index per element is a different (correct) bookkeeping, not a mismatch
+						if len(cntStores) == 1 && idxStores == 1 && sameLoopContext(st.Block(), cntStores[0].Block()) {
 							found = 1
 							cntDelta = cntStores[0].Val.(*ssa.BinOp).Y
 						}
@@ -1017,4 +1019,34 @@ func (w *World) mustPassUp(from ssa.Instruction, q PathQ, depth int) ssa.Instruc
 		return bad
 	}
 	return nil
+}
+
+// sameLoopContext: a and b are both outside every cycle of the CFG, or each reaches the other.
+func sameLoopContext(a, b *ssa.BasicBlock) bool {
+	reach := func(from, to *ssa.BasicBlock) bool {
+		seen := map[*ssa.BasicBlock]bool{}
+		var stack []*ssa.BasicBlock
+		stack = append(stack, from.Succs...)
+		for len(stack) > 0 {
+			x := stack[len(stack)-1]
+			stack = stack[:len(stack)-1]
+			if seen[x] {
+				continue
+			}
+			seen[x] = true
+			if x == to {
+				return true
+			}
+			stack = append(stack, x.Succs...)
+		}
+		return false
+	}
+	if a == b {
+		return true
+	}
+	ca, cb := reach(a, a), reach(b, b)
+	if !ca && !cb {
+		return true
+	}
+	return ca && cb && reach(a, b) && reach(b, a)
 }
